@@ -160,6 +160,39 @@ pub fn check(ctx: &mut Ctx) {
                 ctx.case("static", &key, "pass", serde_json::json!({"query": q, "accepted": ok}));
             }
         }
+        // generated: every zero or fractional spelling, of both signs and any magnitude, in any
+        // position, is rejected; integral spellings are accepted (P-level), and the model agrees (F)
+        let mut r = ctx.rng.fork();
+        for i in 0..ctx.budget(2400, 48000) { // (budget is per shard; this block runs on shard 0 only)
+            let neg = r.below(2) == 0;
+            let ip = *r.pick(&[0u64, 0, 1, 1, 2, 3, 7, 10, 99, 100, 4096, 1000000]);
+            let (text, want_ok) = match r.below(6) {
+                0 => (format!("{}.{}", ip, r.range(1, 9)), false),
+                1 => (format!("{}.0{}", ip, r.range(1, 9)), false),
+                2 => (format!("{}{}e-1", ip, r.range(1, 9)), false),
+                3 => (format!("{}.000", ip), ip != 0),
+                4 => (format!("{}e{}", ip, r.below(3)), ip != 0),
+                _ => (format!("{}", ip), ip != 0),
+            };
+            let text = if neg { format!("-{}", text) } else { text };
+            let q = match i % 4 {
+                0 => format!("* | limit {}", text),
+                1 => format!("* | json | count by k | limit {}", text),
+                2 => format!("* | json | sort by n | limit {}", text),
+                _ => format!("* | json | limit 5 | limit {}", text),
+            };
+            let c = run_both(ctx, &q, b"{\"k\":1,\"n\":2}\n{\"k\":2,\"n\":1}\n");
+            let ok = c.imp.compiled && c.imp.panicked.is_none() && !c.imp.hung;
+            let key = format!("static-gen:{}", q);
+            if ok != want_ok {
+                ctx.case("static-generated", &key, "viol", serde_json::json!({"what": "static limit rule: zero and fractional limits are rejected, integral ones accepted", "query": q, "expected_accept": want_ok, "accepted": ok, "panic": c.imp.panicked}));
+                continue;
+            }
+            match compare(&c, true) {
+                F::Disagree(d) => ctx.case("static-generated", &key, "fdis", serde_json::json!({"what": d, "query": q})),
+                _ => ctx.case("static-generated", &key, "pass", serde_json::json!({"query": q, "accepted": ok})),
+            }
+        }
         // bare limit = 10
         let inp = input(25);
         let r = imp::run("* | json | limit", &inp, "json", 10);
